@@ -4,7 +4,7 @@
 cd /verif
 for sd in "$@"; do
   for p in C01 C02 C03 C04 C05 C06 C07 C08 C09 C10 C11 C12 C13 C14 C15 C16 C17 C18 C19 C20; do
-    out=$(VERIF_SEED=$sd TMVERIF_EVIDENCE_DIR=/tmp/ev_sweep_$sd TMVERIF_REPLAY_DIR=/tmp/rp_sweep_$sd ./check $p 2>&1 | tail -1)
+    out=$(VERIF_SEED=$sd TMVERIF_EVIDENCE_DIR=/tmp/ev_sweep_$sd TMVERIF_REPLAY_DIR=/tmp/rp_sweep_$sd timeout 1500 ./check $p 2>&1 | tail -1)
     echo "seed=$sd $out"
   done
 done
